@@ -399,7 +399,7 @@ def check(tier):
                        "SimPool runs workers one after the other: pool workers share nothing but the file system, so their relative timing cannot matter"]
     budget = core.env_budget(80 if tier == "quick" else 900)
     deadline = time.time() + budget
-    cfg = {"case_timeout_s": 300}
+    cfg = {"case_timeout_s": 900}
     sc_proc = start_selfcompile()       # builds in the background (about 1.5 min) while the main batch runs
     n = 64 if tier == "quick" else 10 ** 8
     batch = 64 if tier == "quick" else 800
